@@ -58,7 +58,9 @@ def run(ctx: Ctx) -> None:
               (FPFormat(4, 3, "nearest"), FPFormat(5, 2, "nearest"), "rn-fp8"),
               (FPFormat(2, 1, "nearest"), FPFormat(3, 0, "nearest"), "rn-tiny"),
               (FPFormat(4, 3, "stochastic", srbits=3), FPFormat(5, 2, "stochastic", srbits=5), "sr-bits"),
-              (FPFormat(4, 3), FPFormat(5, 2), "sr-default")]
+              (FPFormat(4, 3), FPFormat(5, 2), "sr-default"),
+              (FPFormat(8, 23, "nearest"), FPFormat(3, 1, "nearest"), "bwd-only"),
+              (FPFormat(3, 2, "nearest"), FPFormat(8, 23, "nearest"), "fwd-only")]
         return ps
 
     def fmt_json(f) -> Dict[str, Any]:
@@ -101,6 +103,32 @@ def run(ctx: Ctx) -> None:
         T.linear, T.sdpa = linear, sdpa
         T.inline_nn = True
         return T
+
+    def hand_quantise(gm, fwd, bwd):
+        """Reference for graphs that already contain unit-scaled ops: every linear / attention call node is wrapped so
+        that its tensor operands are forward-quantised and its output gradient backward-quantised; every other argument
+        (bias, constraint, mask, mult, ...) reaches the original function exactly as the node gave it."""
+        qf, qb = make_ref(fwd, bwd)
+        operands = {F.linear: ("input", "weight"), U.linear: ("input", "weight"),
+                    F.scaled_dot_product_attention: ("query", "key", "value"),
+                    U.scaled_dot_product_attention: ("query", "key", "value")}
+
+        def wrap(fn, names):
+            def hand_quantised(*args, **kw):
+                args = list(args)
+                for j, nm in enumerate(names):
+                    if j < len(args):
+                        args[j] = qf(args[j])
+                    elif nm in kw:
+                        kw[nm] = qf(kw[nm])
+                return qb(fn(*args, **kw))
+            return hand_quantised
+
+        for n in gm.graph.nodes:
+            if n.op == "call_function" and n.target in operands:
+                n.target = wrap(n.target, operands[n.target])
+        gm.recompile()
+        return gm
 
     def grads_of(mod, xs, seed):
         torch.manual_seed(seed)
@@ -152,6 +180,7 @@ def run(ctx: Ctx) -> None:
                 if unit:
                     gm = unit_scaling_backend()(gm, [])
                 before = fg.serialise(gm.graph)
+                href = hand_quantise(copy.deepcopy(gm), fwd, bwd) if unit else None
                 out = _quantisation_backend(fwd, bwd)(gm, [])
                 after = fg.serialise(out.graph)
                 out.graph.lint()
@@ -162,7 +191,14 @@ def run(ctx: Ctx) -> None:
             mreqs.append({"k": "graph", "pass": "simulate", "nodes": before, "fwd": fmt_json(fwd), "bwd": fmt_json(bwd)})
             mcases.append((key, after))
             # semantic reference for the direct path: the same program with hand-quantised linear / attention
-            if not unit:
+            if unit:
+                d = None
+                with ctx.guard("C15:direct:hand-reference", key):
+                    d = equal_runs(got, grads_of(href, xs, 3))
+                if d:
+                    ctx.violation(f"C15:direct-unit:{d.split(':')[0]}", "backend output on a unit-scaled graph differs from hand "
+                                  f"quantisation of its linear/attention nodes in {d}", key)
+            else:
                 refm = fg.make_module(prog, ref_table(fwd, bwd), seed=i)
                 refm.load_state_dict(mod.state_dict())
                 want = grads_of(refm, xs, 3)
@@ -172,7 +208,7 @@ def run(ctx: Ctx) -> None:
         # ---------------- (b) through TorchDynamo
         for i in range(n_dyn):
             prog = fg.gen_program(rng, rng.randint(1, 10), residuals=rng.randint(0, 2), wrappers=True, attention=True)
-            fwd, bwd, fname = fmt_pairs()[i % 5]
+            fwd, bwd, fname = fmt_pairs()[i % len(fmt_pairs())]
             use_fp8 = fname == "sr-default" and i % 2 == 0
             key = {"path": "dynamo", "program": prog.key(), "formats": "simulate_fp8" if use_fp8 else fname}
             ctx.count(key, bucket=f"dynamo/{key['formats']}")
